@@ -80,7 +80,26 @@ ValHeaps ==
 Len4Heaps == {H1(T44, "csr_unsorted", "T44u"), H1(T44, "csc", "T44c"), H2(T44, T44p, "dense", "T44+p")}
 HeapSets == [len4 |-> Len4Heaps, wide |-> WideHeaps, one |-> {H1(T22, "dense", "T22")}, pairs |-> MergeHeaps \cup ConcatHeaps \cup CountHeaps, val |-> ValHeaps, sum |-> SumHeaps, ctor |-> CtorHeaps, files |-> FileHeaps, json |-> JsonHeaps,std |-> MCInitHeaps, eq |-> EqHeaps, eq3 |-> Eq3Heaps, all |-> MCInitHeaps \cup EqHeaps, mrg |-> MergeHeaps,
              cat |-> ConcatHeaps, cnt |-> CountHeaps, stdcnt |-> MCInitHeaps \cup CountHeaps]
-MCHeaps == HeapSets[IOEnv.GEN_HEAPS]
+\* C08's own scope: EVERY matrix of a given shape over a small value alphabet (GEN_UNIV = JSON file
+\* [n, m, vals, k, salt]; k > 0 takes a deterministic stride sample of k matrices), with metadata naming the
+\* ID on the observation axis, and a hidden layout chosen by the content
+UnivCfg == JsonDeserialize(IOEnv.GEN_UNIV)
+UnivBuilds == <<"dense", "csr_unsorted", "csc", "csr_zeros", "coo">>
+UnivTables ==
+  LET n == UnivCfg.n
+      m == UnivCfg.m
+      oo == SubSeq(<<"o1", "o2", "o3">>, 1, n)
+      ss == SubSeq(<<"s1", "s2", "s3">>, 1, m)
+      md(ids) == MdRows([k \in 1..Len(ids) |-> <<S1("k1", IF k = 2 THEN "y" ELSE "x")>>])
+  IN {Mk(oo, ss, mm, md(oo), NoMd, "OTU table") : mm \in [1..n -> [1..m -> 0..(UnivCfg.vals - 1)]]}
+UnivWeight(t) == LET RECURSIVE W(_, _)
+                     W(i, j) == IF i > Len(t.obs) THEN 0
+                                ELSE IF j > Len(t.samp) THEN W(i + 1, 1)
+                                ELSE t.mat[i][j][1] * (i + 2 * j) + W(i, j + 1)
+                 IN W(1, 1)
+UnivHeaps == {H1(t, UnivBuilds[1 + (UnivWeight(t) % Len(UnivBuilds))], "univ") :
+                t \in Sample(UnivTables, UnivCfg.k, UnivCfg.salt)}
+MCHeaps == IF IOEnv.GEN_HEAPS = "univ" THEN UnivHeaps ELSE HeapSets[IOEnv.GEN_HEAPS]
 
 PhaseSpec == JsonDeserialize(IOEnv.GEN_PHASES)
 MCPhases == [i \in 1..Len(PhaseSpec) |->
